@@ -26,6 +26,15 @@ theorem C34_upper (now0 now1 refresh : Nat) (minRefresh expiry : Option Nat) (hn
   unfold refreshWait nextUpdateStart
   cases minRefresh <;> cases expiry <;> simp <;> (try split) <;> omega
 
+/-- Without the clock hypothesis: if the realtime clock steps back by `now0 - now1` between
+`mark_update_done` and `refresh_wait`, the upper bound is exceeded by at most that step
+(`C34_upper` is the case `now0 ≤ now1`, where the truncated difference is 0). -/
+theorem C34_upper_any_clock (now0 now1 refresh : Nat) (minRefresh expiry : Option Nat) :
+    refreshWait (nextUpdateStart now0 refresh expiry) now1 refresh minRefresh
+      ≤ max refresh (minRefresh.getD refresh) + (now0 - now1) := by
+  unfold refreshWait nextUpdateStart
+  cases minRefresh <;> cases expiry <;> simp <;> (try split) <;> omega
+
 /-- With min-refresh set, a data set expiring before `now0 + refresh` brings the next run
 forward to its expiry, but not below min-refresh. -/
 theorem C34_early_expiry (now0 now1 refresh m e : Nat) (he : e < now0 + refresh) :
